@@ -144,3 +144,19 @@ M("c13.ecc.cascade.narrow", "C13", "lib/Crypto/PublicKey/ECC.py",
   "    try:\n        return _import_subjectPublicKeyInfo(encoded, passphrase)\n    except UnsupportedEccFeature as err:\n        raise err\n    except (ValueError, TypeError):", "X|ECC.import_key|IndexError")
 M("c13.pkcs8.raise.keyerror", "C13", "lib/Crypto/IO/PKCS8.py", 'raise ValueError("Not a valid PrivateKeyInfo SEQUENCE")\n    elif pk_info[0] == 1:', 'raise KeyError("Not a valid PrivateKeyInfo SEQUENCE")\n    elif pk_info[0] == 1:', "X|PKCS8.unwrap|KeyError")
 M("c13.twin.asn1.guard", "C13", ASN1, "                    if len(encoded_length) == 0:\n", "                    if not encoded_length:\n", twin=True)
+
+# ---------------------------------------------------------------- C17 (hand-written successors of obsolete seeds)
+M("c17.ecws.p384.ntables", "C17", "src/ec_ws.c",
+  "    if (bw.nr_windows > p384_n_tables)\n", "    if (bw.nr_windows > p521_n_tables)\n", "M|c|ec_ws.generator_tables")
+M("c17.point.set.lifetime", "C17", "lib/Crypto/PublicKey/_point.py",
+  """        self._point = VoidPointer()
+        result = clone(self._point.address_of(),
+                       point._point.get())
+
+        if result:""",
+  """        source = point._point.get()
+        self._point = VoidPointer()
+        result = clone(self._point.address_of(),
+                       source)
+
+        if result:""", "F|ptr-lifetime|_point.EccPoint.set|source")
